@@ -165,6 +165,10 @@ func (w *world) Run(t *rt.Tape, trace bool) *core.Result {
 			kind = kCO
 		}
 		shared := t.Choose(rt.SGen, 2) == 1
+		// key sizes that are not a multiple of 8 leave the padded message far
+		// below the modulus, which makes modular wrap-around of the masked
+		// messages thousands of times more likely than with 1024 or 2048 bits
+		rsaBits := []int{1024, 1025, 1031, 1027, 1024, 1279}[t.Choose(rt.SGen, 6)]
 		maxN := 2100
 		if kind == kCO {
 			maxN = 130
@@ -172,7 +176,7 @@ func (w *world) Run(t *rt.Tape, trace bool) *core.Result {
 				maxN = 20
 			}
 		} else if kind == kRSA {
-			maxN = 9
+			maxN = 40
 			if small {
 				maxN = 3
 			}
@@ -185,6 +189,9 @@ func (w *world) Run(t *rt.Tape, trace bool) *core.Result {
 			batches = append(batches, drawSize(t, maxN))
 		}
 		smp.Scenario, smp.Kind, smp.Shared, smp.Batches = "ot.OT Send/Receive", kindNames[kind], shared, batches
+		if kind == kRSA {
+			smp.Base = fmt.Sprintf("RSA key size %d bits", rsaBits)
+		}
 		realBase := t.Choose(rt.SGen, 4) == 0 || small == false && t.Choose(rt.SGen, 3) == 0
 		if kind >= kCOT {
 			smp.Base = map[bool]string{true: "real Chou-Orlandi base OTs", false: "stub base OT (labels in clear)"}[realBase]
@@ -194,7 +201,7 @@ func (w *world) Run(t *rt.Tape, trace bool) *core.Result {
 			case kCO:
 				return ot.NewCO(r)
 			case kRSA:
-				return ot.NewRSA(r, 1024)
+				return ot.NewRSA(r, rsaBits)
 			case kCOT:
 				return ot.NewCOT(newBase(r, realBase), r, false, shared)
 			case kCOTMal:
